@@ -629,74 +629,13 @@ Section Trip.
     apply trip_ok. eapply translate_plain_ok; eassumption.
   Qed.
 
-  (* ----- VFS, guarded: percent signs only as canonical escapes ----- *)
-  Lemma translate_vfs_ok rcp p rel :
-    wf_bytes p = true -> pct_ok p = true -> translate_vfs rcp p = Ok rel ->
-    Forall (fun g => segok g = true) (split_slash rel).
-  Proof.
-    intros W G. unfold translate_vfs.
-    destruct (translate_plain rcp p) as [x|e] eqn:T; [|discriminate].
-    pose proof (translate_plain_ok _ _ _ W T) as Hx.
-    unfold unescape. destruct (non_ascii x); [discriminate|].
-    destruct (utf8_valid (pct_decode x)); intros E; inversion E; subst rel; [|exact Hx].
-    clear E Hx. revert T. unfold translate_plain.
-    destruct (negb (utf8_valid p)); [discriminate|].
-    set (cp := if starts_slash p then p else SLASH :: p).
-    assert (Wcp : wf_bytes cp = true) by (unfold cp; destruct (starts_slash p); [exact W|exact W]).
-    assert (Gcp : pct_ok cp = true) by (unfold cp; destruct (starts_slash p); [exact G|exact G]).
-    destruct (bytes_eqb (cp ++ [SLASH]) (norm_rcp rcp)).
-    { intros E; inversion E; subst. repeat constructor. }
-    destruct (prefixb (norm_rcp rcp) cp); [|discriminate].
-    destruct (joinpath_root _) as [r|e] eqn:J; [|discriminate].
-    destruct (starts_slash r) eqn:S; [|discriminate]. cbn [negb]. intros E; inversion E; subst x.
-    assert (Hch : Forall (fun g => wf_bytes g = true /\ noslash g = true /\ pct_ok g = true)
-                         (split_slash (skipn (List.length (norm_rcp rcp)) cp))).
-    { apply Forall_forall; intros x Hx; repeat split.
-      - pose proof (split_wf _ (wf_skipn (List.length (norm_rcp rcp)) _ Wcp)) as A.
-        eapply Forall_forall in A; [exact A|exact Hx].
-      - pose proof (split_noslash (skipn (List.length (norm_rcp rcp)) cp)) as A.
-        eapply Forall_forall in A; [exact A|exact Hx].
-      - pose proof (pct_ok_split _ (pct_ok_skipn (List.length (norm_rcp rcp)) _ Gcp)) as A.
-        eapply Forall_forall in A; [exact A|exact Hx]. }
-    destruct (joinpath_root_segs
-                (fun g => wf_bytes g = true /\ noslash g = true /\ pct_ok g = true) _ _
-                (conj eq_refl (conj eq_refl eq_refl)) Hch J S) as (rest & -> & F).
-    assert (Wr : wf_bytes (DOT :: SLASH :: rest) = true).
-    { unfold wf_bytes. simpl. clear - F.
-      assert (K : forall s, Forall (fun g => wf_bytes g = true) (split_slash s) -> forallb wf_byte s = true).
-      { induction s as [|c s IH]; [reflexivity|]. cbn [split_slash]. intros A.
-        destruct (c =? SLASH) eqn:E.
-        - inversion A; subst. simpl. apply N.eqb_eq in E. subst. rewrite IH by assumption. reflexivity.
-        - destruct (split_slash s) as [|g gs] eqn:Es.
-          + destruct (split_cons s) as (? & ? & ?). congruence.
-          + inversion A as [|? ? A1 A2]; subst. unfold wf_bytes in A1. simpl in A1.
-            apply andb_true_iff in A1 as [A1 A3]. simpl. rewrite A1. apply IH. constructor; assumption. }
-      apply K. eapply Forall_impl; [|exact F]. intros g A. apply A. }
-    change (DOT :: escape (SLASH :: rest)) with (escape (DOT :: SLASH :: rest)).
-    rewrite (decode_escape _ Wr). cbn [split_slash].
-    change (DOT =? SLASH) with false. cbv iota. rewrite N.eqb_refl.
-    constructor; [reflexivity|].
-    apply Forall_forall. intros y Hy.
-    eapply Forall_forall in F; [|exact Hy]. destruct F as ((A & B & C) & D).
-    apply segok_intro; assumption.
-  Qed.
-
-  Theorem vfs_guarded rcp p segs :
-    wf_bytes p = true -> pct_ok p = true ->
+  (* ----- VFS verbs (current translation): no guard needed ----- *)
+  Theorem vfs_inside_root rcp p segs :
+    wf_bytes p = true ->
     resolve_vfs expander base_path rcp p = Ok segs ->
     ~ In dotdot segs /\ stays_inside segs = true.
   Proof.
-    intros W G. unfold resolve_vfs.
-    destruct (translate_vfs rcp p) as [rel|e] eqn:T; [|discriminate].
-    apply trip_ok. eapply translate_vfs_ok; eassumption.
-  Qed.
-  (* ----- VFS with the proposed repair: no guard needed ----- *)
-  Theorem vfs_fixed_inside rcp p segs :
-    wf_bytes p = true ->
-    resolve_vfs_fixed expander base_path rcp p = Ok segs ->
-    ~ In dotdot segs /\ stays_inside segs = true.
-  Proof.
-    intros W. unfold resolve_vfs_fixed, translate_vfs_fixed.
+    intros W. unfold resolve_vfs, translate_vfs.
     destruct (negb (utf8_valid p)); [discriminate|].
     unfold unescape. destruct (non_ascii p); [discriminate|].
     destruct (utf8_valid (pct_decode p)).
@@ -707,7 +646,7 @@ Section Trip.
   Qed.
 End Trip.
 
-(* ---------- refutations (independent of the userdir expander and of base_path) ---------- *)
+(* ---------- the OLD translation (before 54ddefb) is refuted, whatever the expander and base_path ---------- *)
 (* "..%2Fsecret/x" *)
 Definition witness_sep : bytes := [46;46;37;50;70;115;101;99;114;101;116;47;120].
 (* "%%%332E%%%332E/secret/x" : no encoded separator, a triply nested encoded dot *)
@@ -715,13 +654,13 @@ Definition witness_dot : bytes :=
   [37;37;37;51;51;50;69;37;37;37;51;51;50;69;47;115;101;99;114;101;116;47;120].
 Definition escaped_segs : list bytes := [dotdot; [115;101;99;114;101;116]; [120]].
 
-Lemma vfs_refuted_sep expander base_path :
-  resolve_vfs expander base_path [SLASH] witness_sep = Ok escaped_segs /\
+Lemma old_vfs_refuted_sep expander base_path :
+  resolve_vfs_old expander base_path [SLASH] witness_sep = Ok escaped_segs /\
   stays_inside escaped_segs = false /\ wf_bytes witness_sep = true.
 Proof. repeat split; vm_compute; reflexivity. Qed.
 
-Lemma vfs_refuted_dot expander base_path :
-  resolve_vfs expander base_path [SLASH] witness_dot = Ok escaped_segs /\
+Lemma old_vfs_refuted_dot expander base_path :
+  resolve_vfs_old expander base_path [SLASH] witness_dot = Ok escaped_segs /\
   stays_inside escaped_segs = false /\ wf_bytes witness_dot = true.
 Proof. repeat split; vm_compute; reflexivity. Qed.
 
@@ -731,15 +670,23 @@ Lemma plain_on_witness expander base_path :
   = Ok [[46;46;37;50;70;115;101;99;114;101;116]; [120]].
 Proof. vm_compute. reflexivity. Qed.
 
+(* the current translation on the two old witnesses: the first is rejected, the
+   second is a harmless literal file name below the served directory *)
+Lemma vfs_on_old_witnesses expander base_path :
+  resolve_vfs expander base_path [SLASH] witness_sep = Fail "InvalidURLJoin" /\
+  resolve_vfs expander base_path [SLASH] witness_dot
+  = Ok [[37;37;51;50;69;37;37;51;50;69]; [115;101;99;114;101;116]; [120]].
+Proof. split; vm_compute; reflexivity. Qed.
+
 (* ---------- non-vacuity ---------- *)
-(* "a%20b/%C3%A9/../~x/f" satisfies the VFS guard and is served *)
-Definition guarded_example : bytes :=
+(* "a%20b/%C3%A9/../~x/f" is served as  a b/~x/f *)
+Definition vfs_example : bytes :=
   [97;37;50;48;98;47;37;67;51;37;65;57;47;46;46;47;126;120;47;102].
-Lemma guarded_example_ok expander base_path :
-  pct_ok guarded_example = true /\ wf_bytes guarded_example = true /\
-  resolve_vfs expander base_path [SLASH] guarded_example
+Lemma vfs_example_ok expander base_path :
+  wf_bytes vfs_example = true /\
+  resolve_vfs expander base_path [SLASH] vfs_example
   = Ok [[97;32;98]; [126;120]; [102]].
-Proof. repeat split; vm_compute; reflexivity. Qed.
+Proof. split; vm_compute; reflexivity. Qed.
 
 (* posixpath.expanduser over an empty user database, any absolute base_path *)
 Lemma expander_harmless_nohomes bp : expander_harmless (expanduser []) (SLASH :: bp).
